@@ -170,7 +170,13 @@ def _doc_file_guard(ctx, out, R):
                                 "no longer matches the file and leaving the block fails, unlike an unbuffered run", construct=k))
     clr = [c for c in body_nodes(fi) if isinstance(c, ast.Call) and canon(c.func) in ("self.document.clear", "self.doc.clear")]
     if clr:
-        out.append(ctx.ok(R, fi, clr[0], "clear() empties the document through its handle"))
+        facts = common.facts_at(ctx, fi, clr[0], "n")
+        cond = [f for f in facts if any(x in f[0] for x in ("isfile", "exists", "_document is", "_document is not", "self._document"))]
+        if cond:
+            out.append(ctx.viol(R, fi, clr[0], f"clear() empties the document only if {cond}: a document that so far exists only in the buffer of a signac.buffered() block "
+                                "(written through another handle, no file yet) is not cleared and is flushed when the block exits, unlike an unbuffered run"))
+        else:
+            out.append(ctx.ok(R, fi, clr[0], "clear() empties the document through its handle, unconditionally"))
     else:
         out.append(ctx.viol(R, fi, fi.node, "clear() does not clear the document through its handle"))
 
